@@ -82,6 +82,15 @@ CLAIMED = {
         note="Cell identities are read through _scrn and .scrn; generator position is inferred from the bit-generator state against a "
              "reference stream. The stability clause is a spectral statement evaluated numerically on the measured one-step operator "
              "(auxiliary, outside TLC)."),
+    "C06": dict(
+        engine="tlc+replay", design_ref="DESIGN.md §3 C06",
+        technique="TLA+ spec RngIso.tla: generators as (stream, position), every produced array carries its provenance (token intervals); all interleavings of finite-screen calls (int / None / Generator seeds), three screen instances (two twins), unrelated calls and global-stream actions; Reproducible/SeedsDiffer/GlobalUntouched/Isolated checked by TLC; simulated behaviours executed against the real library with hash-pattern = provenance-pattern",
+        text="Exhaustive exploration (abstract view) of all interleavings to depth 4 (5), plus 1500 (15000) distinct simulated "
+             "behaviours of depth 10 executed in order on the real library: after every step the returned array and numpy's global "
+             "state are hashed; equal provenance must mean bit-identical output, different provenance different output, and the "
+             "global state may change only on global steps. Seeds include 0, None and a caller-owned Generator; model bugs "
+             "(global fallback, shared instance generator) are rejected by TLC (self-test).",
+        note="Bounded depth; a fixed pair of parameter sets and three instance configurations. Bit-identity observed via SHA-256."),
 }
 
 NOT_APPLICABLE = {
